@@ -17,7 +17,7 @@ from typing import (
 )
 
 from pdfminer import settings
-from pdfminer.casting import safe_float, safe_rect_list
+from pdfminer.casting import safe_float, safe_matrix, safe_rect_list
 from pdfminer.cmapdb import (
     CMap,
     CMapBase,
@@ -1076,7 +1076,12 @@ class PDFType3Font(PDFSimpleFont):
         else:
             descriptor = {"Ascent": 0, "Descent": 0, "FontBBox": spec["FontBBox"]}
         PDFSimpleFont.__init__(self, descriptor, widths, spec)
-        self.matrix = cast(Matrix, tuple(list_value(spec.get("FontMatrix"))))
+        font_matrix = [resolve1(v) for v in list_value(spec.get("FontMatrix"))]
+        matrix = safe_matrix(*font_matrix) if len(font_matrix) == 6 else None
+        if matrix is None:
+            # the usual glyph space of 1000 units per text space unit
+            matrix = (0.001, 0, 0, 0.001, 0, 0)
+        self.matrix = matrix
         (_, self.descent, _, self.ascent) = self.bbox
         # glyph-space widths run along x and heights along y: a sheared
         # font matrix must not add its c (resp. b) component to the scale
@@ -1203,7 +1208,8 @@ class PDFCIDFont(PDFFont):
                 cmap_name = literal_name(spec["Encoding"])
             else:
                 cmap_name = literal_name(spec_encoding["CMapName"])
-        except KeyError:
+        except (KeyError, TypeError):
+            # absent, or neither a name nor a CMap stream
             if strict:
                 raise PDFFontError("Encoding is unspecified")
 
